@@ -199,3 +199,83 @@ def _facts(op, c):
         elif c == 0:
             out |= {"nonneg"}
     return out
+
+
+# ------------------------------------------------------------------ path-merging return abstraction (dataflow)
+def dec_returns(f):
+    """For every return of an asn_dec_rval_t function: the set of (code, consumed) pairs the returned object may hold,
+    by forward may-dataflow over the last assignments to its fields (correlated per object).
+    code in OK/WMORE/FAIL/child:<callee>/expr:<text>/uninit; consumed in '0'/child/<expr text>/uninit."""
+    from .dataflow import forward, MapState, join_maps
+
+    def call_name(r):
+        return r[2] if r[0] == "call" else tree_text(r[2])
+
+    def transfer(st, b, i, e):
+        if e["k"] == "decl" and "asn_dec_rval" in e.get("type", ""):
+            if "init" in e:
+                r = strip_casts(e["init"]["tree"])
+                if isinstance(r, list) and r and r[0] in ("call", "icall"):
+                    return st.with_(e["id"], {("child:" + call_name(r), "child")})
+                if isinstance(r, list) and r and r[0] == "initlist" and len(r[1]) >= 1:
+                    c = const_of(r[1][0])
+                    code = RC.get(c, "expr:%s" % c) if c is not None else "expr:" + tree_text(r[1][0])
+                    cons = "0"
+                    if len(r[1]) > 1:
+                        c2 = const_of(r[1][1])
+                        cons = "0" if c2 == 0 else tree_text(r[1][1])
+                    return st.with_(e["id"], {(code, cons)})
+            return st.with_(e["id"], {("uninit", "uninit")})
+        if e["k"] == "assign" and e.get("base_id") and not e.get("deref") and e.get("op") == "=":
+            vid = e["base_id"]
+            cur = st.get_set(vid)
+            if e.get("lhs") == e.get("base"):
+                r = strip_casts(e["rhs"]["tree"])
+                if isinstance(r, list) and r and r[0] in ("call", "icall"):
+                    if "asn_dec_rval" in e["rhs"].get("type", ""):
+                        return st.with_(vid, {("child:" + call_name(r), "child")})
+                    return st
+                if is_var(r) and r[1] in st:
+                    return st.with_(vid, st.get_set(r[1]))
+                return st
+            if not cur:
+                if e.get("field") not in ("code", "consumed"):
+                    return st
+                cur = frozenset({("uninit", "uninit")})
+            if e.get("field") == "code":
+                c = const_of(e["rhs"]["tree"])
+                if c is not None:
+                    nv = RC.get(c, "expr:%d" % c)
+                    return st.with_(vid, {(nv, x[1]) for x in cur})
+                r = strip_casts(e["rhs"]["tree"])
+                # copy of another object's code:  rval.code = tmp.code
+                if isinstance(r, list) and r and r[0] == "member" and r[2] == "code" and is_var(r[1]) and strip_casts(r[1])[1] in st:
+                    src = st.get_set(strip_casts(r[1])[1])
+                    return st.with_(vid, {(s[0], x[1]) for x in cur for s in src})
+                return st.with_(vid, {("expr:" + e["rhs"]["text"], x[1]) for x in cur})
+            if e.get("field") == "consumed":
+                c = const_of(e["rhs"]["tree"])
+                nv = "0" if c == 0 else e["rhs"]["text"]
+                return st.with_(vid, {(x[0], nv) for x in cur})
+        if e["k"] == "assign" and e.get("base_id") and not e.get("deref") and e.get("field") == "consumed" and e.get("op") in ("+=", "-="):
+            cur = st.get_set(e["base_id"])
+            if cur:
+                return st.with_(e["base_id"], {(x[0], x[1] + e["op"] + e["rhs"]["text"]) for x in cur})
+        return st
+    out = []
+
+    def on_event(st, b, i, e):
+        if e["k"] != "return":
+            return
+        ex = e.get("expr")
+        if not ex:
+            return
+        t = strip_casts(ex["tree"])
+        if isinstance(t, list) and t and t[0] in ("call", "icall"):
+            out.append((b, i, e, {("child:" + call_name(t), "child")}))
+        elif is_var(t):
+            out.append((b, i, e, set(st.get_set(t[1])) or {("unknown", "unknown")}))
+        else:
+            out.append((b, i, e, {("unknown", "unknown")}))
+    forward(f, MapState(), transfer, join_maps, on_event=on_event)
+    return out
